@@ -209,5 +209,11 @@ func ipFromBigInt(n *big.Int, length int) (net.IP, error) {
 	if n.Sign() < 0 || n.BitLen() > 8*length {
 		return nil, errors.New("address out of range for subnet")
 	}
-	return net.IP(n.FillBytes(make([]byte, length))), nil
+	ip := net.IP(n.FillBytes(make([]byte, length)))
+	if length == net.IPv6len && ip.To4() != nil {
+		// An IPv6 subnet that overlaps ::ffff:0:0/96 can yield an IPv4-mapped address, which
+		// every consumer of net.IP treats as the IPv4 address it embeds.
+		return nil, errors.New("address is IPv4-mapped, not an IPv6 address of the subnet")
+	}
+	return ip, nil
 }
